@@ -5,7 +5,7 @@
    reals + one absorbing NaN); only the standard-library Reals axioms.                                   *)
 From Coq Require Import ZArith List Reals.
 From Tevec Require Import Base.Prelude Base.Num Base.XR Model.Driver Proofs.Driver Model.Cmp Spec.Extrema
-     Proofs.IdxRun Proofs.Cmp Proofs.Rank.
+     Proofs.IdxRun Proofs.Cmp Proofs.Rank Spec.Stats Model.Features Model.Norm Proofs.Norm.
 Import ListNotations.
 
 (* the comparisons of isnone.rs at the integer carrier are the null-last order *)
@@ -129,6 +129,50 @@ Theorem C03_rank_rev_is_descending :
     avg_rank false true x V' = (1 + INR (count_gt x V') + INR (count_eq x V') / 2)%R.
 Proof. exact avg_rank_rev_gt. Qed.
 
+(* (5) z-score = (x - mean) / sample-std over the non-null window; null when x is null, below min_periods
+   (min(min_periods or w/2, w)), or the spread is zero in the code's sense: population variance <= EPS *)
+Theorem C03_ts_vzscore :
+  forall (body : bool) (w : nat) (mp : option nat) (xs : list XR), 1 <= w ->
+    exists out, ts_vzscore body w mp xs = Done out /\ length out = length xs /\
+      forall i, i < length xs ->
+        nth_error out i =
+        Some (match nth_error xs i with
+              | Some (Some x) =>
+                  let V := valid (win w i xs) in
+                  if mp_eff mp w 0 <=? length V then
+                    (if Rlt_dec EPS (popvarR V) then Some ((x - meanR V) / samplestdR V)%R else None)
+                  else None
+              | _ => None
+              end).
+Proof. exact ts_vzscore_spec. Qed.
+
+(* (6) min-max normalisation.  Full statement (tmin / tmax: the sentinels T::Inner::min_() / max_(), every
+   element within them): *)
+Definition C03_minmaxnorm_full_statement : Prop :=
+  forall (lo hi : R) (body : bool) (w : nat) (mp : option nat) (xs : list XR), 1 <= w ->
+    (forall r, In (Some r) xs -> (lo <= r <= hi)%R) ->
+    exists out, ts_vminmaxnorm (Some lo) (Some hi) body w mp xs = Done out /\ length out = length xs /\
+      forall i, i < length xs ->
+        nth_error out i =
+        Some (match nth_error xs i with
+              | Some (Some x) =>
+                  let V := valid (win w i xs) in
+                  if mp_eff mp w 0 <=? length V then
+                    (if Req_EM_T (lmaxR V) (lminR V) then None
+                     else Some ((x - lminR V) / (lmaxR V - lminR V))%R)
+                  else None
+              | _ => None
+              end).
+
+(* proved part: the closed form of the emitted value once the cached maximum / minimum are those of the window
+   (the cache invariant of the lazily re-searched pair is covered by the correspondence run only) *)
+Theorem C03_ts_vminmaxnorm_partial :
+  forall (mp n : nat) (x mx mn : R),
+    (if (mp <=? n) && negb (neqb (Some mx) (Some mn))
+     then ndiv (nsub (Some x) (Some mn)) (nsub (Some mx) (Some mn)) else nnan) =
+    if mp <=? n then (if Req_EM_T mx mn then None else Some ((x - mn) / (mx - mn))%R) else None.
+Proof. exact mmnorm_emit_closed. Qed.
+
 (* ---- non-vacuity --------------------------------------------------------------------------------- *)
 Definition Dopt : IsNone (option Z) Z := IsNone_option.
 
@@ -163,3 +207,5 @@ Print Assumptions C03_cache_fresh_or_stale.
 Print Assumptions C03_rank_counts.
 Print Assumptions C03_ts_vrank.
 Print Assumptions C03_rank_rev_is_descending.
+Print Assumptions C03_ts_vzscore.
+Print Assumptions C03_ts_vminmaxnorm_partial.
